@@ -6,7 +6,7 @@
    tight (the conversion is to 64 bits and the guard is |x| >= 2^(prec-1)); the lower
    bound is not essential (the file also compiles with 1 <= prec).
    Instances: binary32, binary64, x87 extended.
-   Only the standard real-number axioms are used (see the Print Assumptions at the end). *)
+   Only the standard real-number axioms are used (Print Assumptions: Properties_rounding.v). *)
 From Coq Require Import ZArith Reals Bool Lia Lra Psatz.
 From Flocq Require Import Core BinarySingleNaN.
 From Tetl Require Import Lib.Base C16.Model C16.Spec.
@@ -554,12 +554,3 @@ Corollary g_trunc_exact_b80 : forall x : binary_float 64 16384,
   g_trunc 64 16384 p80 pe80 x = Ok (spec_trunc 64 16384 pe80 x).
 Proof. apply g_trunc_exact. lia. Qed.
 
-Print Assumptions g_floor_exact_b32.
-Print Assumptions g_floor_exact_b64.
-Print Assumptions g_ceil_exact_b32.
-Print Assumptions g_ceil_exact_b64.
-Print Assumptions g_trunc_exact_b32.
-Print Assumptions g_trunc_exact_b64.
-Print Assumptions g_floor_exact_b80.
-Print Assumptions g_ceil_exact_b80.
-Print Assumptions g_trunc_exact_b80.
